@@ -26,6 +26,7 @@ More info can be found at: https://www.w3.org/TR/soap12-part1/
 
 import logging
 
+from lxml import html
 from lxml.builder import E
 
 from spyne.protocol.soap.soap11 import Soap11
@@ -133,9 +134,19 @@ class Soap12(Soap11):
                                                         subelts, add_type=False)
 
     def schema_validation_error_to_parent(self, ctx, cls, inst, parent, ns, **_):
+        # the message is ascii bytes with character references in it
+        faultstring = inst.faultstring
+        if isinstance(faultstring, bytes):
+            faultstring = html.fromstring(faultstring).text
+
+        reason = E("{%s}Reason" % self.ns_soap_env)
+        reason.append(E("{%s}Text" % self.ns_soap_env, faultstring,
+                        **{'{%s}lang' % NS_XML: inst.lang}))
+
         subelts = [
-            E("{%s}Reason" % self.soap_env, inst.faultstring),
-            E("{%s}Role" % self.soap_env, inst.faultactor),
+            None,  # The code tag is put here down the road
+            reason,
+            E("{%s}Role" % self.ns_soap_env, inst.faultactor),
         ]
 
         return self._fault_to_parent_impl(ctx, cls, inst, parent, ns, subelts)
